@@ -288,7 +288,7 @@ impl ValueVisitor {
 //@@ spec
     ensures
         r is Ok ==> r->Ok_0 == node_of(data.field@, data.src@),       // [C03.value.node-of-announced-type] [C05.value.node-of-announced-type] the node built for a constructor is the variant the specification's table assigns to it, holding the decoded content unchanged
-        r is Ok ==> (*final(data.log))@ == (*old(data.log))@.push(Op::Variant).push(Op::Newtype(kind_of(data.field@))),       // [C03.value.content-decoded-once-as-own-type] [C05.value.content-decoded-once-as-own-type] [C04.value.content-decoded-once-as-own-type] the content is decoded exactly once, as the payload type of THAT variant (a uint as u32, a ushort as u16, a list as a sequence of values ...): its octets are consumed once and what follows starts where the value ends
+        r is Ok ==> (*final(data.log))@ == (*old(data.log))@.push(Op::Variant).push(Op::Newtype(kind_of(data.field@))),       // [C03.value.content-decoded-once-as-own-type] [C05.value.content-decoded-once-as-own-type] [C04.value.content-decoded-once-as-own-type] [C01.value.content-decoded-once-as-own-type] the content is decoded exactly once, as the payload type of THAT variant (a uint as u32, a ushort as u16, a list as a sequence of values ...): its octets are consumed once and what follows starts where the value ends
 //@@ end
 
 //@@ fn file=serde_amqp/src/value/de.rs impl=`impl<'de> de::Visitor<'de> for ValueVisitor` name=visit_bool id=ValueVisitor::visit_bool
